@@ -363,6 +363,14 @@ class Interp:
                     self._record(s2, node, b, True)
                     out.append((s2, b))
             return out, raises
+        if isinstance(node, ast.Compare) and len(node.ops) > 1 and self.rule.wants_compose:
+            # a <= b <= c  ==  (a <= b) and (b <= c)   (term-building rules: each link is decided and remembered on its own)
+            links = []
+            left = node.left
+            for op, right in zip(node.ops, node.comparators):
+                links.append(ast.copy_location(ast.Compare(left=left, ops=[op], comparators=[right]), node))
+                left = right
+            return self.truth_fork(st, ast.copy_location(ast.BoolOp(op=ast.And(), values=links), node))
         if isinstance(node, ast.Compare):
             cur, raises = [(st, [])], []
             for e in [node.left] + node.comparators:
@@ -942,17 +950,17 @@ class Interp:
                 if not (self.rule.wants_subscript and av.sym):
                     self.assign(st, t.value if isinstance(t, ast.Starred) else t, UNK)
                 elif i < j:
-                    self.assign(st, t, AV("unk", sym=f"idx({av.sym},{i})"))
+                    self.assign(st, t, AV("unk", sym=self.rule.term("idx", av.sym, str(i))))
                 elif i == j:
                     hi = "" if j == n - 1 else str(-(n - 1 - j))
                     self.assign(st, t.value, AV("unk", sym=self.rule.term("slice", av.sym, str(j), hi, ""), none=False))
                 else:
-                    self.assign(st, t, AV("unk", sym=f"idx({av.sym},{-(n - i)})"))
+                    self.assign(st, t, AV("unk", sym=self.rule.term("idx", av.sym, str(-(n - i)))))
         elif isinstance(target, (ast.Tuple, ast.List)):
             if av.kind == "tuple" and len(av.val) == len(target.elts):
                 parts = av.val
             elif self.rule.wants_subscript and av.sym:
-                parts = [AV("unk", sym=f"idx({av.sym},{i})") for i in range(len(target.elts))]  # term-building rules: element terms
+                parts = [AV("unk", sym=self.rule.term("idx", av.sym, str(i))) for i in range(len(target.elts))]  # term-building rules: element terms
             else:
                 parts = [UNK] * len(target.elts)
             for t, p in zip(target.elts, parts):
